@@ -132,7 +132,6 @@ const (
 	opDelegSmall    = "delegate-small"    // Users[0] delegates 1000 OLT (pool small against the validators' power)
 	opDelegBig      = "delegate-big"      // Users[1] delegates 500 000 000 OLT (pool 100x the validators' power)
 	opUndelegBig    = "undelegate-big"    // Users[1] takes the 500 000 000 OLT out again
-	opUndelegSmall  = "undelegate-small"  // Users[0] takes 1000 OLT out again (pool back to zero)
 	opDonateDeleg   = "donate-delegpool"  // Users[2] sends 4000 OLT to the delegation pool (nobody's delegation: dilutes)
 	opDonateRewards = "donate-rewardpool" // Users[2] sends 9 OLT to the rewards pool
 	opWOne          = "withdraw-1"        // Vals[0] withdraws 1 OLT of its matured rewards
@@ -145,23 +144,34 @@ const (
 func (s *wspec) events() []event {
 	ev := []event{{Name: "default"}}
 	if len(s.Powers) == 4 {
-		// equal powers: any single validator may be absent (3/4 > 2/3), never two
-		ev = append(ev, event{Name: "absent-V1", Absent: []int{0}}, event{Name: "absent-V2", Absent: []int{1}}, event{Name: "absent-V4", Absent: []int{3}})
+		// equal powers: any single validator may be absent (3/4 > 2/3), never two. V1 is the validator
+		// that withdraws; V2 stands for the other three (they differ only in when they propose, and every
+		// validator is proposer and non-proposer at some height of a history)
+		ev = append(ev, event{Name: "absent-V1", Absent: []int{0}}, event{Name: "absent-V2", Absent: []int{1}})
 	} else {
 		// 2:1:7 - the two small ones may be absent, alone or together (7/10 > 2/3); the big one never
 		ev = append(ev, event{Name: "absent-V1", Absent: []int{0}}, event{Name: "absent-V2", Absent: []int{1}}, event{Name: "absent-V1+V2", Absent: []int{0, 1}})
 	}
+	ev = append(ev, event{Name: "dt-1s", Dt: time.Second})
+	if s.YearClose != nil {
+		// years of a few minutes: a slow block changes the forecast, 40 days end the schedule
+		ev = append(ev, event{Name: "dt-60s", Dt: 60 * time.Second}, event{Name: "dt-40d", Dt: 40 * day})
+	} else {
+		// calendar years: 40 d stays inside year 1, 400 d lands in year 2, 550 d lands in year 2 with a
+		// cycle so slow that no further block is forecast to fit, twice 400 d ends the schedule
+		ev = append(ev, event{Name: "dt-40d", Dt: 40 * day}, event{Name: "dt-400d", Dt: 400 * day}, event{Name: "dt-550d", Dt: 550 * day})
+	}
 	ev = append(ev,
-		event{Name: "dt-1s", Dt: time.Second},
-		event{Name: "dt-40d", Dt: 40 * day},
-		event{Name: "dt-400d", Dt: 400 * day},
-		event{Name: "dt-550d", Dt: 550 * day},
 		event{Name: opDelegSmall, Op: opDelegSmall},
 		event{Name: opDelegBig, Op: opDelegBig},
 		event{Name: opUndelegBig, Op: opUndelegBig},
-		event{Name: opUndelegSmall, Op: opUndelegSmall},
 		event{Name: opDonateDeleg, Op: opDonateDeleg},
-		event{Name: opDonateRewards, Op: opDonateRewards},
+	)
+	if s.Pool < 1000 {
+		// only where the pool is small enough for a donation to change the regime
+		ev = append(ev, event{Name: opDonateRewards, Op: opDonateRewards})
+	}
+	ev = append(ev,
 		event{Name: opWOne, Op: opWOne},
 		event{Name: opWAll, Op: opWAll},
 		event{Name: opWOver, Op: opWOver},
@@ -172,8 +182,17 @@ func (s *wspec) events() []event {
 
 func (e event) bigDt() bool { return e.Dt >= day }
 
-// numEvents is the size of the per-block alphabet (the same for every configuration).
-func numEvents() int { w := worlds()[0]; return len(w.events()) }
+// numEvents is the size of the largest per-block alphabet (indexes beyond a configuration's own
+// alphabet are padding and never executed).
+func numEvents() int {
+	n := 0
+	for _, w := range worlds() {
+		if k := len(w.events()); k > n {
+			n = k
+		}
+	}
+	return n
+}
 
 // buildTx builds the transaction of an operation. pos is the position in the history (distinct memos:
 // byte-identical transactions are rejected as replays); floorMaturedOLT is the whole-OLT part of what
@@ -187,8 +206,6 @@ func buildTx(w *harness.World, op string, pos int, floorMaturedOLT int64) *harne
 		return stk.Delegate(w.Users[1], stk.OLT(500000000), memo)
 	case opUndelegBig:
 		return stk.Undelegate(w.Users[1], stk.OLT(500000000), memo)
-	case opUndelegSmall:
-		return stk.Undelegate(w.Users[0], stk.OLT(1000), memo)
 	case opDonateDeleg:
 		return stk.SendPool(w.Users[2], "DelegationPool", stk.OLT(4000), memo)
 	case opDonateRewards:
